@@ -47,18 +47,23 @@ Fixpoint list_eqb {A} (eqb : A -> A -> bool) (a b : list A) : bool :=
   | _, _ => false
   end.
 
-Theorem seeds_as_expected : list_eqb pair_eqb seeds expected_seeds = true.
+(* (stated first, and as equalities of the lists themselves, so that when the repository
+   changes the failing obligation's message SHOWS the offending write site / the new alias
+   field instead of "true <> false"; the check copies that message into the evidence) *)
+
+(* PROGRAM READ-ONLY: no assignment, op-assignment, ++/--, append, copy, delete, clear,
+   address-taking or channel send anywhere in the repository has a target inside the
+   shared Program *)
+Theorem program_read_only : filter of_program write_sites = [].
 Proof. vm_compute. reflexivity. Qed.
 
-Theorem alias_set_as_expected : list_eqb af_eqb alias_fields expected_alias_fields = true.
+Theorem seeds_as_expected : seeds = expected_seeds.
+Proof. vm_compute. reflexivity. Qed.
+
+Theorem alias_set_as_expected : alias_fields = expected_alias_fields.
 Proof. vm_compute. reflexivity. Qed.
 
 (* ---------- PROGRAM READ-ONLY ------------------------------------------------------------ *)
-
-(* no assignment, op-assignment, ++/--, append, copy, delete, clear, address-taking or
-   channel send anywhere in the repository has a target inside the shared Program *)
-Theorem program_read_only : filter of_program write_sites = [].
-Proof. vm_compute. reflexivity. Qed.
 
 (* the only foreign code a reference into the Program is handed to: methods of
    *regexp.Regexp documented as safe for concurrent use ("A Regexp is safe for concurrent
